@@ -251,6 +251,7 @@ _TAG_EXTRA: Dict[str, Any] = {}     # extra parameters of Tag.get_html_string (b
 
 def _tag_args(run: Any) -> Tuple[Dict[str, Any], Any]:
     s = SObj("self", {"TAG"})
+    run.__dict__["frame_self_uid"] = s.uid
     b: Dict[str, Any] = {"self": s, "indent": SInt("indent"), "eol": SStr([Frag("VAR", "eol")])}
     for nm, d in _TAG_EXTRA.items():
         # a boolean extra parameter is explored for both values; which ones are reachable is decided from the call sites
@@ -696,7 +697,8 @@ def frame_leaf_matches(m: Model, leaf: Leaf, sc: FrameScenario) -> Tuple[bool, L
             holds = sc.name == atom[2][1]
             if holds != (not str(val).startswith("!=")):
                 return False, []
-        elif tag == "attr" and atom[2] == "add_ws":
+        elif tag == "attr" and atom[2] == "add_ws" and atom[1] == run.__dict__.get("frame_self_uid", atom[1]):
+            # the whitespace flag of the element itself (the flag of some other tag, e.g. of a child, is a free condition)
             if sc.add_ws is not val:
                 return False, []
         elif tag == "first-is-meta":
